@@ -110,6 +110,9 @@ impl Property for C04 {
         if case.sels.len() != sc.handlers.len() {
             return Err(HarnessError("C04 case needs one selector AST per handler".into()));
         }
+        if sc.handlers.iter().zip(case.sels.iter()).any(|(h, s)| h.selector() != Some(s.css().as_str())) {
+            return Err(HarnessError("C04 case: selector AST does not print to the handler's selector".into()));
+        }
         let h = driver::run(sc).map_err(HarnessError)?;
         st.absorb_history(&h);
         record_cut_contexts(st, sc);
